@@ -52,16 +52,24 @@ fn runtime_query<D: Store>(d: &mut D, addr: usize, key: Result<usize, garnish_la
     out
 }
 
-fn list_on<D: Store>(f: &[&str]) -> String {
+fn list_on<D: Store>(f: &[&str], copy: bool) -> String {
     let mut d = D::create(None);
     let term = match parse_term(f[3]) {
         Ok(t) => t,
         Err(e) => return format!("BAD-CASE {}", e),
     };
-    let addr = match build(&mut d, &term) {
+    let mut addr = match build(&mut d, &term) {
         Ok(a) => a,
         Err(e) => return format!("SETUP-ERR {}", e),
     };
+    if copy {
+        let mut to = D::create(None);
+        addr = match garnish_lang_traits::helpers::clone_data(addr, &d, &mut to) {
+            Ok(a) => a,
+            Err(_) => return "COPY-ERR".into(),
+        };
+        d = to;
+    }
     let ty = d.get_data_type(addr).unwrap_or(GarnishDataType::Invalid);
     let mut out: Vec<String> = vec![];
     for q in f[4].split(' ').filter(|q| !q.is_empty()) {
@@ -133,8 +141,12 @@ pub fn list_case(f: &[&str]) -> String {
         return "BAD-CASE fields".into();
     }
     match f[2] {
-        "simple" => list_on::<SimpleStore>(f),
-        "basic" => list_on::<BasicStore>(f),
+        "simple" => list_on::<SimpleStore>(f, false),
+        "basic" => list_on::<BasicStore>(f, false),
+        // the value is built in one data object, copied into a fresh one with the public helper
+        // `garnish_lang_traits::helpers::clone_data`, and the COPY is queried
+        "simplecopy" => list_on::<SimpleStore>(f, true),
+        "basiccopy" => list_on::<BasicStore>(f, true),
         s => format!("BAD-CASE store {}", s),
     }
 }
